@@ -581,6 +581,7 @@ def parse_tag(tag: str) -> Optional[dict]:
                 (1 <= int(t.group("file_number")) <= 255)
                 and (0 <= int(t.group("element_number")) <= 255)
                 and (0 <= int(t.group("sub_element")) <= 15)
+                and t.group("file_type").upper() != "F"  # a floating-point element has no addressable bits
             ):
                 element_count = t.group("element_count")
                 return {
